@@ -17,6 +17,14 @@ __CPROVER_ensures(self->_points->_points.size == frame->_points->_points.size)
 __CPROVER_ensures(self->_analogs->_subframe.size == frame->_analogs->_subframe.size)
 __CPROVER_ensures(vf_exc == 0);
 
+/* Frame(): fresh empty parts (proved in unit Frame_ctor) */
+void contract_Frame__ctor_fresh(struct Frame *self)
+__CPROVER_requires(vf_exc == 0 && __CPROVER_rw_ok(self, sizeof(*self)))
+__CPROVER_assigns(self->_points, self->_analogs)
+__CPROVER_ensures(__CPROVER_is_fresh(self->_points, sizeof(struct Points)) && self->_points->_points.size == 0)
+__CPROVER_ensures(__CPROVER_is_fresh(self->_analogs, sizeof(struct Analogs)) && self->_analogs->_subframe.size == 0)
+__CPROVER_ensures(vf_exc == 0);
+
 #define OLDN __CPROVER_old(self->_frames.size)
 #define TARGET (idx == SIZE_MAX ? OLDN : idx)
 #define OLD_PTS(i) __CPROVER_old(self->_frames.data[(i) < self->_frames.size ? (i) : 0]._points)
@@ -41,6 +49,10 @@ __CPROVER_ensures((vf_gf < OLDN && vf_gf != TARGET) ==>
 /*@ C06 : Data_frame.frames-in-between-empty */
 __CPROVER_ensures((idx != SIZE_MAX && vf_gf >= OLDN && vf_gf < idx) ==>
                   (self->_frames.data[vf_gf]._points->_points.size == 0 && self->_frames.data[vf_gf]._analogs->_subframe.size == 0))
+/*@ C06 C08 : Data_frame.frames-in-between-independent */
+__CPROVER_ensures((idx != SIZE_MAX && vf_gf >= OLDN && vf_gf < idx && vf_gf2 >= OLDN && vf_gf2 < idx && vf_gf != vf_gf2) ==>
+                  (self->_frames.data[vf_gf]._points != self->_frames.data[vf_gf2]._points &&
+                   self->_frames.data[vf_gf]._analogs != self->_frames.data[vf_gf2]._analogs))
 /*@ C06 : Data_frame.target-point-count */
 __CPROVER_ensures(self->_frames.data[TARGET]._points->_points.size == frame->_points->_points.size)
 /*@ C06 : Data_frame.target-subframe-count */
